@@ -109,6 +109,14 @@ def compare_sig(acc, a, b, **detail):
     if a[:6] != b[:6]:
         acc.fail('fingerprints depend on numbering / insertion order', component=[i for i in range(6) if a[i] != b[i]], **detail)
     elif a[6] != b[6]:
+        # same identifiers, same letters. The descriptor of a chain is oriented by its content, so the direction of the text is a function of the
+        # structure unless the descriptor reads the same both ways; what may differ with the numbering is the aromatic case / hydrogen count shown for
+        # an atom (the recorded finding). A text that is the other one read backwards is a different failure.
+        da, db = dict(a[6]), dict(b[6])
+        for k in da:
+            if da[k] != db.get(k) and sorted(map(_chain_tokens, da[k])) != sorted(map(_chain_tokens, db.get(k, ()))):
+                acc.fail('linear_hash_smiles writes a chain in a numbering-dependent direction', texts=[list(da[k]), list(db.get(k, ()))], **detail)
+                return
         acc.fail(KF_TEXT, **detail)
     elif a[7] != b[7]:
         # the neighbourhood texts differ although hash keys, sets and bits agree. If both texts denote the same fragment (independent canonical code of the
@@ -120,6 +128,19 @@ def compare_sig(acc, a, b, **detail):
                 acc.fail('morgan_hash_smiles names a different fragment for the same identifier under another numbering', texts=[list(da[k]), list(db.get(k, ()))], **detail)
                 return
         acc.ood['morgan_hash_smiles text differs only in the canonical spelling of the cut-out fragment (C01 gaps: stereo marks, alternating-ring Kekule form)'] += 1
+
+
+def _chain_tokens(text):
+    """tokens of a chain text with what the chain descriptor does not hold removed (aromatic case, hydrogen counts)"""
+    import re
+    out = []
+    for tok in re.findall(r'\[[^\]]*\]|Cl|Br|[A-Za-z]|[^A-Za-z\[\]]', text):
+        if tok[0] == '[':
+            tok = re.sub(r'(?<=[A-Za-z])H\d*', '', tok).lower()
+            if tok[1:-1].isalpha():
+                tok = tok[1:-1]
+        out.append(tok.lower())
+    return tuple(out)
 
 
 def _frag_code(text):
